@@ -120,7 +120,7 @@ def run(seed, n=4):
             f.write("From Coq Require Import String List Bool ZArith.\n"
                     "From Orq Require Import Base State Machines Codec Conductor Decode Api Driver.\n"
                     "Import ListNotations.\nOpen Scope string_scope.\n" + "\n".join(parts))
-        p = subprocess.run(["timeout", "300", "coqc", "-Q", os.path.join(COQ, "gen"), "Orq", "-Q",
+        p = subprocess.run(["flock", "-s", os.path.join(COQ, ".lock"), "timeout", "300", "coqc", "-Q", os.path.join(COQ, "gen"), "Orq", "-Q",
                             os.path.join(COQ, "model"), "Orq", path], stdout=subprocess.PIPE, stderr=subprocess.STDOUT,
                            text=True, cwd=tmp)
         out = p.stdout
